@@ -4,7 +4,7 @@
    For the metrics that divide by n_features the case n = 0 (where both implementations raise ZeroDivisionError)
    is excluded. *)
 From Coq Require Import List ZArith Bool Reals.
-From UV Require Import Num M_metrics M_sparse T_sparse T_sparse_metrics T_sparse_corr T_sparse_link.
+From UV Require Import Num M_metrics M_sparse M_sparse_lld T_sparse T_sparse_metrics T_sparse_corr T_sparse_link T_sparse_lld T_metrics_real.
 Import ListNotations.
 Local Open Scope R_scope.
 
@@ -149,6 +149,47 @@ Theorem C13_hellinger :
     accum RNum sqrt (vals RNum (sparse_mul RNum a b)) <= sqrt (accum RNum (idf RNum) (vals RNum a) * accum RNum (idf RNum) (vals RNum b)).
 Proof. intros a b n Ca Cb Ba Bb Na Nb. split; [exact (sparse_hellinger_eq_dense a b n Ca Cb Ba Bb Na Nb) | exact (hellinger_clamp_unreachable a b n Ca Cb Ba Bb Na Nb)]. Qed.
 Print Assumptions C13_hellinger.
+
+(* ---- ll_dirichlet: the two texts select their terms differently (dense: products / values > 0.9; sparse: every stored value,
+   every non-zero product; only the sparse one returns early on a zero total), so the statement needs the hypotheses under which
+   the selections coincide: no empty row, every stored value > 0.9 (lld_big), every coordinate-wise product 0 or > 0.9 (lld_prod).
+   C13_ll_dirichlet_counts: they hold for count data (stored values >= 1).  E: any interpretation of pi / int(). ---- *)
+Theorem C13_ll_dirichlet :
+  forall (E : Ext RNum) (a b : rvec) (n : nat), canonical a -> canonical b -> below n a -> below n b ->
+    a <> [] -> b <> [] -> lld_big a -> lld_big b -> lld_prod a b ->
+    sparse_ll_dirichlet RNum E a b = d_ll_dirichlet RNum E (densify RNum n a) (densify RNum n b).
+Proof. exact sparse_ll_dirichlet_eq_dense. Qed.
+Print Assumptions C13_ll_dirichlet.
+
+Theorem C13_ll_dirichlet_counts :
+  forall (E : Ext RNum) (a b : rvec) (n : nat), canonical a -> canonical b -> below n a -> below n b ->
+    a <> [] -> b <> [] -> Forall (fun e => 1 <= snd e) a -> Forall (fun e => 1 <= snd e) b ->
+    sparse_ll_dirichlet RNum E a b = d_ll_dirichlet RNum E (densify RNum n a) (densify RNum n b).
+Proof. exact sparse_ll_dirichlet_eq_dense_counts. Qed.
+Print Assumptions C13_ll_dirichlet_counts.
+
+(* outside that class the statement is false: a stored value <= 0.9 facing a zero (rows (0.5, 0) / (0, 1): sparse 0, dense > 0), and
+   exactly one empty row (rows () / (1): sparse 1e8, dense 0 over R -- the implementation's dense function divides by the zero total) *)
+Theorem C13_ll_dirichlet_refuted_small :
+  canonical lld_wit_a /\ canonical lld_wit_b /\ below 2 lld_wit_a /\ below 2 lld_wit_b /\
+  lld_wit_a <> [] /\ lld_wit_b <> [] /\ lld_big lld_wit_b /\ lld_prod lld_wit_a lld_wit_b /\
+  sparse_ll_dirichlet RNum RExt lld_wit_a lld_wit_b = 0 /\
+  0 < d_ll_dirichlet RNum RExt (densify RNum 2 lld_wit_a) (densify RNum 2 lld_wit_b).
+Proof. exact sparse_ll_dirichlet_refuted_small. Qed.
+Print Assumptions C13_ll_dirichlet_refuted_small.
+
+Theorem C13_ll_dirichlet_refuted_empty :
+  canonical [] /\ canonical lld_wit_c /\ below 1 [] /\ below 1 lld_wit_c /\ lld_big [] /\ lld_big lld_wit_c /\ lld_prod [] lld_wit_c /\
+  sparse_ll_dirichlet RNum RExt [] lld_wit_c = 100000000 /\
+  d_ll_dirichlet RNum RExt (densify RNum 1 []) (densify RNum 1 lld_wit_c) = 0.
+Proof. exact sparse_ll_dirichlet_refuted_empty. Qed.
+Print Assumptions C13_ll_dirichlet_refuted_empty.
+
+Theorem C13_ll_dirichlet_refuted :
+  exists (a b : rvec) (n : nat), canonical a /\ canonical b /\ below n a /\ below n b /\
+    sparse_ll_dirichlet RNum RExt a b <> d_ll_dirichlet RNum RExt (densify RNum n a) (densify RNum n b).
+Proof. exact sparse_ll_dirichlet_refuted. Qed.
+Print Assumptions C13_ll_dirichlet_refuted.
 
 (* ---- correlation: proved for the repaired function, refuted for the unrepaired one ------------- *)
 Theorem C13_correlation :
